@@ -402,3 +402,78 @@ def argctx_rule(ctx, prop, which):
         ctx.violation(rid, key, fi.file, fi.line, "%s visit_identifier visits the argument bound to parameter `t` of `b` while `b` is still the generic "
                       "evaluation context: a parameter of the caller inside the argument is resolved against b's own parameters "
                       "(`c<t> = b<t>` never terminates, `c<u> = b<u>` looks for a rule named u)" % which)
+
+
+def instguard_rule(ctx, prop, which):
+    rid = "%s.instguard" % prop
+    ctx.rule(rid, "visit_type2 (%s) on a generic instantiation `g<args>` in type position: the child validator that evaluates the generic "
+                  "rule takes the recursion guard (state.visited_rules, keys `rule NUL data_location`) and its data_location from the same "
+                  "coordinate system — a child that starts at its own origin must not inherit guard keys made from the parent's positions, "
+                  "otherwise an input-consuming recursion through the instantiation (`tree = [* node]`, `node = opt<tree>`) is reported as "
+                  "a cycle whenever a relative position equals an open absolute one, and `opt<tree>` stops meaning what `tree / null` means "
+                  "(abstract evaluation; the state of the child at its visit_rule call is observed)" % which.upper(), floor=1)
+    f = ctx.facts
+    fi = vt.visitor_fn(f, which, "visit_type2")
+    doc = ("enum", "Value::Array", [absint.OPAQUE])
+    obj = vt.self_obj(which, doc)
+    guard = absint.PyMap()
+    guard[absint.hkey(("str", "tree\x00/0"))] = None
+    obj[2]["state"][2].update({"is_multi_type_choice": False, "is_multi_group_choice": False, "data_location": ("str", "/0/0"),
+                               "type_group_name_entry": ("None",), "enabled_features": ("None",), "visited_rules": guard,
+                               "generic_rules": absint.MutList(), "eval_generic_rule": ("None",)})
+    sub = []
+    seen = []
+    ctor = "JSONValidator::new" if which == "json" else "CBORValidator::new"
+
+    def new(run, node, args, sub=sub):
+        o = vt.self_obj(which, args[1] if len(args) > 1 else absint.OPAQUE)
+        o[2]["state"][2].update({"data_location": ("str", ""), "visited_rules": absint.PyMap(), "generic_rules": absint.MutList()})
+        sub.append(o)
+        return o
+
+    def visit_rule(run, node, recv, sub=sub, seen=seen):
+        if sub and recv is sub[-1]:
+            cst = recv[2]["state"][2]
+            vr = cst.get("visited_rules")
+            seen.append((cst.get("data_location"), vr))
+            return ("Ok", ("tuple", []))
+        return NotImplemented
+    ga = ("enum", "GenericArgs", {"args": absint.MutList()})
+    t2 = ("enum", "Type2::Typename", {"ident": ("enum", "Identifier", {"ident": ("str", "opt"), "socket": ("None",)}), "generic_args": ("Some", ga)})
+    r = vt.Run(f, which, "default", {}, {"self": obj, "t2": t2}, scripts={ctor: new, "visit_rule": visit_rule})
+    r.it.string_places = True
+    r.new_methods = set(r.new_methods) | {"new_with_recursion_state"}
+    base = r.on_call
+
+    def on_call(kind, name, node, args, recv, base=base):
+        if kind == "fn" and name:
+            b = name.split("::")[-1]
+            if b in ("rule_from_ident", "unwrap_rule_from_ident"):
+                return ("Some", ("the-generic-rule",))
+            if b == "generic_params_from_rule":
+                return ("Some", absint.MutList([("str", "T")]))
+        return base(kind, name, node, args, recv)
+    r.it.on_call = on_call
+    key = "%s|g<args>" % which
+    try:
+        r.run(fi.node)
+    except absint.Unknown as e:
+        ctx.incomplete_msg(rid, "%s: %s" % (key, e))
+        return
+    if not seen:
+        ctx.incomplete_msg(rid, "%s: no child validator visit of the generic rule was observed" % key)
+        return
+    loc, vr = seen[-1]
+    if absint.has_opaque(loc) or not isinstance(vr, absint.PyMap):
+        ctx.incomplete_msg(rid, "%s: the child's data_location / visited_rules could not be evaluated" % key)
+        return
+    if isinstance(loc, absint.MutList):
+        loc = ("str", "".join(c[1] for c in loc))
+    inherits = absint.hkey(("str", "tree\x00/0")) in vr
+    ctx.site(rid, key, fi.file, fi.line, {"child_location": repr(loc), "inherits_guard": inherits})
+    if inherits and loc != ("str", "/0/0"):
+        ctx.violation(rid, key + "|guard-from-other-origin", fi.file, fi.line,
+                      "%s visit_type2: the child validator of a generic instantiation starts at data_location %r but inherits the parent's recursion "
+                      "guard, whose keys were made from the parent's positions (parent at '/0/0'): `tree = [* node]`, `node = opt<tree>`, "
+                      "`opt<T> = T / null` rejects [[null]] as a recursive rule reference although `node = tree / null` accepts it"
+                      % (which, loc[1] if isinstance(loc, tuple) and len(loc) > 1 else loc))
